@@ -12,7 +12,13 @@ use serde_json::{json, Value};
 use crate::pipe::*;
 use crate::util::*;
 
-fn post<A: Abc, C: PositiveLength>(s: &StripedSequence<A, C>, seq: &[usize], rng: &mut impl Rng, with_counts: bool) -> Value {
+/// Reading the object back (position indexing, symbol counts) is part of the observation: a panic there is reported like
+/// a panic of the call itself.
+fn post<A: Abc, C: PositiveLength>(s: &StripedSequence<A, C>, seq: &[usize], rng: &mut impl Rng, with_counts: bool) -> Result<Value, String> {
+    guarded(|| post_raw(s, seq, rng, with_counts))
+}
+
+fn post_raw<A: Abc, C: PositiveLength>(s: &StripedSequence<A, C>, seq: &[usize], rng: &mut impl Rng, with_counts: bool) -> Value {
     let m = s.matrix();
     let rows: Vec<Vec<usize>> = (0..m.rows()).map(|i| m[i].iter().map(|x| x.as_index()).collect()).collect();
     let mut index = Vec::new();
@@ -72,8 +78,10 @@ fn history<A: Abc, C: PositiveLength, P: Stripe<A, C>>(
                 if C::USIZE == 32 && l >= 1024 { rec.class("len_reaches_32x32_tile"); }
                 if l == 0 { rec.class("empty"); }
                 rec.nontrivial(&(be, arm.map(|a| a.name()), A::NAME, C::USIZE, l, fresh));
-                let p = post(s, &ranks, rng, with_counts);
-                rec.emit(json!({"ev":"stripe","o":o,"ret":"ok","post":p}));
+                match post(s, &ranks, rng, with_counts) {
+                    Ok(p) => rec.emit(json!({"ev":"stripe","o":o,"ret":"ok","post":p})),
+                    Err(msg) => { rec.class("panic_reading_back"); rec.emit(json!({"ev":"stripe","o":o,"ret":"panic","msg":format!("while reading the object back: {}", msg)})); return; }
+                }
             }
             Err(m) => {
                 rec.class("panic");
@@ -108,8 +116,10 @@ fn history<A: Abc, C: PositiveLength, P: Stripe<A, C>>(
                     rec.class("configure_wrap");
                     if m > rows { rec.class("wrap_deeper_than_rows"); }
                     rec.nontrivial(&(be, A::NAME, C::USIZE, l, m, "wrap"));
-                    let p = post(buf.as_ref().unwrap(), &ranks, rng, with_counts);
-                    rec.emit(json!({"ev":"stripe","o":o,"ret":"ok","post":p}));
+                    match post(buf.as_ref().unwrap(), &ranks, rng, with_counts) {
+                        Ok(p) => rec.emit(json!({"ev":"stripe","o":o,"ret":"ok","post":p})),
+                        Err(msg) => { rec.class("panic_reading_back"); rec.emit(json!({"ev":"stripe","o":o,"ret":"panic","msg":format!("while reading the object back: {}", msg)})); return; }
+                    }
                 }
                 Err(msg) => {
                     rec.class("panic");
@@ -235,8 +245,10 @@ fn small_history<A: Abc, C: PositiveLength>(
         }
         rec.class(if fresh { "stripe_fresh" } else { "stripe_reuse" });
         rec.nontrivial(&("generic", A::NAME, C::USIZE, l, fresh));
-        let p = post(buf.as_ref().unwrap(), &ranks, rng, true);
-        rec.emit(json!({"ev":"stripe","o":o,"ret":"ok","post":p}));
+        match post(buf.as_ref().unwrap(), &ranks, rng, true) {
+            Ok(p) => rec.emit(json!({"ev":"stripe","o":o,"ret":"ok","post":p})),
+            Err(msg) => { rec.class("panic_reading_back"); rec.emit(json!({"ev":"stripe","o":o,"ret":"panic","msg":format!("while reading the object back: {}", msg)})); return; }
+        }
         for _ in 0..2 {
             let rows = (l + C::USIZE - 1) / C::USIZE;
             let m = if rng.gen_bool(0.3) { rows + rng.gen_range(0..3) } else { rng.gen_range(0..8) };
@@ -249,8 +261,10 @@ fn small_history<A: Abc, C: PositiveLength>(
             }
             rec.class("configure_wrap");
             if m > rows { rec.class("wrap_deeper_than_rows"); }
-            let p = post(buf.as_ref().unwrap(), &ranks, rng, true);
-            rec.emit(json!({"ev":"stripe","o":o,"ret":"ok","post":p}));
+            match post(buf.as_ref().unwrap(), &ranks, rng, true) {
+                Ok(p) => rec.emit(json!({"ev":"stripe","o":o,"ret":"ok","post":p})),
+                Err(msg) => { rec.class("panic_reading_back"); rec.emit(json!({"ev":"stripe","o":o,"ret":"panic","msg":format!("while reading the object back: {}", msg)})); return; }
+            }
         }
     }
 }
